@@ -184,6 +184,7 @@ type Exec struct {
 	PinCheck bool
 	PinViol  []string
 	PlanShapes map[string]int
+	PinGrowth, PinChecks int
 	StmtCount int
 	Txns      []*TxnRec
 }
@@ -276,6 +277,8 @@ func (e *Exec) run1(i int, op Op) OpOutcome {
 			if d := pinDiff(before, after); d != "" {
 				e.PinViol = append(e.PinViol, fmt.Sprintf("op %d %s: %s", i, op.Stmt.SQL(), d))
 			}
+			e.PinGrowth += pinGrowth(before, after)
+			e.PinChecks++
 		}
 		if res.Aborted {
 			if pi := e.abortSlot(i, op.T, true); pi != nil {
